@@ -8,9 +8,6 @@ Local Open Scope N_scope.
 #[local] Opaque dec.
 
 (* ---------------------------------------------------------------- interrupted RemoveAll *)
-Definition dsub (d' d : bdir) : Prop :=
-  (d_data d' = d_data d \/ d_data d' = None) /\ (d_sizef d' = d_sizef d \/ d_sizef d' = None) /\
-  (d_ban d' = true -> d_ban d = true) /\ (forall s v, aget s (d_md d') = Some v -> aget s (d_md d) = Some v).
 Lemma dsub_refl : forall d, dsub d d.
 Proof. intros d. repeat split; auto. Qed.
 Lemma dsub_trans : forall a b c, dsub a b -> dsub b c -> dsub a c.
